@@ -98,4 +98,23 @@ PROPS["C16"] = {
     "assumptions": ["in-flight checking is done when exactly one target is present (so the routed connection is the removed one)"],
 }
 
+PROPS["C08"] = {
+    "parts": [{"name": "frames", "pkg": "c08", "chk": "chk_c08_frames", "args": ["frames"]},
+              {"name": "big", "pkg": "c08", "chk": "chk_c08_big", "args": ["big"]},
+              {"name": "ws", "pkg": "c08", "chk": "chk_c08_ws", "args": ["ws"]},
+              {"name": "resp", "pkg": "c08", "chk": "chk_c08_resp", "args": ["resp"]}],
+    "reasons": {
+        "frames": {"1": "a request frame within the limit was not delivered intact, in order, exactly once", "2": "a malformed/oversize tail did not end the call with an error (or a clean stream did)"},
+        "big": {"1": "a real-size frame within the 4 MiB limit was not delivered whole", "3": "an oversize or short frame was truncated/accepted instead of rejected"},
+        "ws": {"1": "a grpc-websockets data message (possibly empty) was dropped, duplicated or reordered", "2": "finish marker / malformed message did not end the request stream as specified"},
+        "resp": {"1": "gRPC-Web response is not HTTP 200", "2": "response body is not data frames followed by exactly one final trailer frame",
+                 "3": "grpc-status / percent-encoded grpc-message do not equal the call's outcome", "4": "response messages altered, dropped or reordered"}},
+    "rule": "frames: 0-5 frames of sizes {0,2..2000} + optional malformed tail (truncated header/body, oversize declared length) under random chunking of the HTTP body; big: declared lengths around 2^22 with full/short bodies of real size; "
+            "ws: grpc-websockets message sequences (data incl. empty, finish marker, malformed, after-finish); resp: 17 codes x messages with non-ASCII/control/percent bytes x origins {target, router, stream creation} x 0-3 response messages; non-trivial = at least one frame/message or a non-OK status",
+    "level_text": "Coq theorems: for every list of payloads within the limit and EVERY chunking of their frames, the reader returns exactly those payloads in order (it depends only on the concatenation); a frame declaring more than the limit yields an error and no message; pre-repair code refuted (truncation). grpc-websockets delivery of every data message incl. the empty one; response = data frames + exactly one trailer frame; percent-decoding of the escaped grpc-message is the identity for every byte string and the escaped text is printable ASCII. Tied to the code through GRPCWebBridge / GRPCWebSocketBridge with a fake target.",
+    "level_note": "Trusted: Coq kernel, extraction, modelrun, Go harness (httptest, gorilla/websocket as drivers); proto.Unmarshal of payloads (generated valid); HTTP chunking and gws reassembly below the handler.",
+    "design_ref": "DESIGN.md §3 C08",
+    "assumptions": ["real-size (4 MiB) frames are checked by length arithmetic only (part big); byte-level correspondence uses payloads up to 2000 bytes"],
+}
+
 NOT_APPLICABLE = {}
